@@ -2,9 +2,10 @@ SPECIFICATION Spec
 CONSTANTS
   Guids = {"g1"}
   RuleIds = {"r1"}
+  Contents = {"c1"}
   Versions = {"2.0"}
   ModeOf <- MCModeOf
-  RulesKeyedOnIdOnly = TRUE
+  RulesKey = "id"
   IdsIdentifyContent = FALSE
   InitScenarios = {"fresh"}
   InitDocs <- DocsEmptyId
